@@ -387,12 +387,14 @@ pub fn run(ctx: &mut Ctx) {
     ctx.run_suite(&ScheduleSuite);
     ctx.run_suite(&super::c19sess::SessionSuite);
     ctx.run_suite(&super::c19proc::ProcessSuite);
+    ctx.run_suite(&super::c19h3::H3WindDownSuite);
     ctx.assume("while the application waits for completion it holds the Shutdown mutex (as endpoint/src/main.rs does), so registrations and submissions after that point are not part of the model");
     ctx.assume("process level: real time on loopback; a graceful end of a session is recognised by the TLS close_notify (a process that exits or drops the socket sends none)");
 }
 
 pub fn replay(ctx: &mut Ctx, suite: &str, case: &Value) -> bool {
     match suite {
+        "h3-tunnel-wind-down" => ctx.replay_suite(&super::c19h3::H3WindDownSuite, case),
         "primitive-schedules-random" => ctx.replay_suite(&ScheduleSuite, case),
         "process-shutdown" => ctx.replay_suite(&super::c19proc::ProcessSuite, case),
         "session-wind-down" => ctx.replay_suite(&super::c19sess::SessionSuite, case),
